@@ -132,8 +132,10 @@ type knownFinding struct {
 }
 
 // loadKnown reads /verif/known_findings.txt: one entry per line, either
-//   fixed: property=<id> <commit> <what failed>      (repaired defect; suppresses nothing)
-//   finding: {"property":..,"rule":..,"key":..,"what":..,"evidence":..}
+//
+//	fixed: property=<id> <commit> <what failed>      (repaired defect; suppresses nothing)
+//	finding: {"property":..,"rule":..,"key":..,"what":..,"evidence":..}
+//
 // The file is committed and never written at run time.
 func loadKnown() []knownFinding {
 	f, err := os.Open(filepath.Join(verifDir(), "known_findings.txt"))
